@@ -153,6 +153,35 @@ def chain_descs(rng, count):
     return out
 
 
+def selfloop_descs(rng, count):
+    """Arc-based instances in which a customer carries an arc to itself with travel time zero: the move (k,s,k,s) enters and
+    leaves (k,s) at once, so it appears twice in the same flow-conservation row (+1 and -1, which must SUM to 0) and once in
+    the visit row.  The independent checker does not require routes here (closed customer cycles are legitimate once a
+    customer-to-customer travel time is zero)."""
+    INF = float("inf")
+    out = [{"nodes": [("D", 0, 0, INF), ("c1", 0, 0, 2)], "depot_first": True,
+            "arcs": [("D", "c1", 1, 1), ("c1", "c1", 0, 0), ("c1", "D", 1, 1)], "time_points": [0, 1, 2], "V": 1, "L": 3,
+            "strict": False, "routes": [], "vehicle_cap": 5, "initial_loading": 5, "make_feasible": None, "mf_mode": "fresh",
+            "np_seed": 1, "cost_scale": 1}]
+    for _ in range(count):
+        k = rng.randint(1, 2)
+        cust = [f"c{i + 1}" for i in range(k)]
+        nodes = [("D", 0, 0, INF)] + [(c, 0, rng.randint(0, 1), rng.randint(1, 3)) for c in cust]
+        arcs = []
+        for c in cust:
+            if rng.random() < 0.85:
+                arcs.append(("D", c, rng.randint(0, 1), rng.randint(0, 3)))
+            if rng.random() < 0.85:
+                arcs.append((c, "D", rng.randint(0, 1), rng.randint(0, 3)))
+            if rng.random() < 0.8:
+                arcs.append((c, c, 0, rng.randint(0, 2)))
+        if k == 2 and rng.random() < 0.6:
+            arcs.append(("c1", "c2", rng.randint(0, 1), 1))
+        rng.shuffle(arcs)
+        out.append(dict(out[0], nodes=nodes, arcs=arcs, time_points=sorted(rng.sample([0, 1, 2, 3], rng.randint(2, 3)))))
+    return out
+
+
 def instance_fails(kind, desc, sig):
     rp = fh.BUILDERS[kind](desc)
     try:
@@ -240,6 +269,25 @@ def run(ctx):
                           dict(fh.describe({"kind": "seq", "desc": desc, "rp": rp}), **extra,
                                python="props.c03.check_instance(fh.BUILDERS['seq'](desc))"), True)
     stats["seq_chain_queried_before_heuristic"] = n_chain
+    # targeted: arc instances with a zero-time arc from a customer to itself (duplicate entries of one flow row must be summed)
+    n_loop = 0
+    for desc in selfloop_descs(rng, 25 if ctx.quick else 400):
+        try:
+            rp = fh.BUILDERS["arc"](desc)
+            if int(rp.get_num_variables()) < 1 or int(rp.get_num_variables()) > max_n:
+                continue
+        except Exception:  # noqa
+            continue
+        n_loop += 1
+        for sig, msg, extra in check_instance(rp)[5]:
+            full = f"{sig}/arc/self-loop"
+            if full in reported:
+                continue
+            reported.add(full)
+            ctx.violation(full, f"arc (customer with a zero-time arc to itself): {msg}",
+                          dict(fh.describe({"kind": "arc", "desc": desc, "rp": rp}), **extra,
+                               python="props.c03.check_instance(fh.BUILDERS['arc'](desc))"), True)
+    stats["arc_customer_self_loop"] = n_loop
     # path-based problems that grow between two queries (a customer added after the first feasibility QUBO was requested)
     from props import c02_grow
 
